@@ -84,6 +84,11 @@ package tsi
 //@     set ex = ex && ret0
 //@   call .Seek with kb.B
 //@     requires [skip_only_accepted_value] ex
+// ... and the key it seeks to is "this value, terminated": the value is marshalled WITH its trailing separator before
+// the last byte is bumped - without it the bump changes the value's last character and every value that has this one
+// as a proper prefix (web-1, web2 after web) is skipped too.
+//@   call marshalTagValueNoTrailingTagSeparator
+//@     never [seek_key_is_the_terminated_value]
 //@ prop C10
 
 // One stable id per series: an id is (logical clock of this process life, 24 bits) . (sequence number, 40 bits),
@@ -148,3 +153,36 @@ package tsi
 //@ func (*MergeSetIndex).flushBloomFilter
 //@   call Join
 //@     requires [flush_dir_is_path_slash_mergeset_slash_bf] len(arg0) == 3 && arg0[0] == idx.path && arg0[1] == MergeSetDirName && arg0[2] == mergeset.BloomFilterDirName
+
+// Pruning by the series key (the second and later executions of a cached tag-filter plan): a filter on a tag key the
+// series does not carry is evaluated against the EMPTY value, for every operator - so k != 'v' holds for a series
+// without k, exactly as on the index path. Every decision rests on a comparison, and when the last comparison was
+// against the empty value the answer is that comparison's result (negated for != and !~).
+//@ prop C10
+//@ func matchWithNoRegex
+//@   ensures result == (expectValue == value)
+//@   assigns nothing
+//@ func matchSeriesKeyTagFilter
+//@   requires tf != nil
+//@   ghost compared bool = false
+//@   ghost againstEmpty bool = false
+//@   ghost m bool = false
+//@   call matchWithNoRegex
+//@     requires [filter_value_on_the_left] arg0 == matchValue
+//@     set compared = true
+//@     set againstEmpty = (arg1 == "")
+//@     set m = ret0
+//@   call (*Regexp).MatchString
+//@     frame nothing
+//@     set compared = true
+//@     set againstEmpty = (arg0 == "")
+//@     set m = ret0
+//@   call MustCompile
+//@     frame nothing
+//@   call Bytes2str
+//@     frame nothing
+//@   ensures [every_decision_rests_on_a_comparison] compared
+//@   ensures [absent_key_is_compared_as_the_empty_value] compared && againstEmpty ==> result == (old(tf.isNegative) ? !m : m)
+//@   loop 1
+//@     invariant exist ==> compared
+//@     invariant exist && againstEmpty ==> !(tf.isNegative ? !m : m)
